@@ -222,7 +222,13 @@ func runKeepAliveExecution(t *testing.T, seed int64, log *traceLog) {
 			}
 			_, _ = w.peers[k].WriteTo(pay, relayAddr)
 			synctest.Wait()
-			_ = relay.SetReadDeadline(time.Now().Add(time.Millisecond))
+			// (with writes that return late the read loop may be busy handing a result to a caller that is still inside
+			// its socket write -- ClientTxn!InboundBusy -- for up to 0.8 s: what the peer sent is delayed, not lost)
+			patience := time.Millisecond
+			if cconn.AfterWrite != nil {
+				patience = time.Second
+			}
+			_ = relay.SetReadDeadline(time.Now().Add(patience))
 			buf := make([]byte, 2000)
 			n, from, rerr := relay.ReadFrom(buf)
 			if empty && rerr == nil && n == 0 { // the empty datagram came out first: the probe is next
